@@ -320,19 +320,26 @@ Proof.
 Qed.
 
 Definition listener_admits_b (cl : cluster) (r : route) (p : parentref) (g : gateway) (l : listener) : bool :=
-  section_ok (p_section p) l && listener_allowed cl g r l.
+  listener_ok cl r g (p_section p) l.
+
+Lemma protocol_spec r l : protocol_ok r l = true <-> protocol_admits r l.
+Proof.
+  unfold protocol_ok, protocol_admits. destruct (rt_tcp r).
+  - rewrite negb_true_iff, !orb_false_iff, !String.eqb_neq. split; [tauto|]. intros H. specialize (H eq_refl). tauto.
+  - split; [discriminate|reflexivity].
+Qed.
 
 Lemma listener_admits_spec cl r p g l :
   NoDup (map fst (c_namespaces cl)) -> rt_kind r = true_kind r ->
   (listener_admits_b cl r p g l = true <-> listener_admits cl r p g l).
 Proof.
-  intros Hnd Hk. unfold listener_admits_b, listener_admits, listener_allowed.
-  rewrite andb_true_iff, section_spec, Hk. split.
-  - intros [Hs H]. split; [exact Hs|]. destruct (l_allowed l) as [a|]; [|discriminate].
+  intros Hnd Hk. unfold listener_admits_b, listener_ok, listener_admits, listener_allowed.
+  rewrite !andb_true_iff, section_spec, protocol_spec, Hk. split.
+  - intros [[Hs Hp] H]. split; [exact Hs|]. split; [exact Hp|]. destruct (l_allowed l) as [a|]; [|discriminate].
     apply andb_true_iff in H as [Hkind Hns].
     destruct (al_namespaces a) as [rn|] eqn:En; [|discriminate].
     exists a, rn. repeat split; auto; [apply kind_allowed_spec; exact Hkind|apply ns_allowed_spec; assumption].
-  - intros [Hs (a & rn & Ea & En & Hkind & Hns)]. split; [exact Hs|]. rewrite Ea, En.
+  - intros [Hs [Hp (a & rn & Ea & En & Hkind & Hns)]]. split; [auto|]. rewrite Ea, En.
     apply andb_true_iff. split; [apply kind_allowed_spec; exact Hkind|apply ns_allowed_spec; assumption].
 Qed.
 
@@ -509,7 +516,7 @@ Proof.
   destruct (get_gateway cl (parent_ns r p) (p_name p)) as [g|]; [|cbn [fold_left]; auto].
   apply (fold_level (backs_inv cl)); [|exact Hi0].
   intros l st1 _ Hi1. unfold sync_listener, links_listener, listener_admits_b.
-  destruct (section_ok (p_section p) l && listener_allowed cl g r l); [|cbn [fold_left]; auto].
+  destruct (listener_ok cl r g (p_section p) l); [|cbn [fold_left]; auto].
   apply (fold_level (backs_inv cl)); [|exact Hi1].
   intros ir st2 Hir Hi2. apply sync_rule_http; auto.
   apply in_rule_pairs. auto.
@@ -551,7 +558,7 @@ Proof.
     rewrite IH. apply Hrule. }
   assert (Hlis : forall g sec ls st, st_paths (fold_left (sync_listener cl r g sec) ls st) = st_paths st).
   { intros g sec ls. induction ls as [|l t IH]; cbn [fold_left]; intros st0; [reflexivity|].
-    rewrite IH. unfold sync_listener. destruct (_ && _); [apply Hrules|reflexivity]. }
+    rewrite IH. unfold sync_listener. destruct (listener_ok _ _ _ _ _); [apply Hrules|reflexivity]. }
   induction (rt_parents r) as [|p t IH] in st |- *; cbn [fold_left]; [reflexivity|].
   rewrite IH. unfold sync_parent. destruct (parent_is_gateway p); [|reflexivity].
   destruct (get_gateway _ _ _); [apply Hlis|reflexivity].
@@ -858,7 +865,7 @@ Proof.
   destruct (parent_is_gateway p); [|exact Hi0].
   destruct (get_gateway _ _ _) as [g|]; [|exact Hi0].
   revert st0 Hi0. apply fold_inv_only. intros l st1 _ Hi1. unfold sync_listener.
-  destruct (_ && _); [|exact Hi1]. revert st1 Hi1. apply fold_inv_only.
+  destruct (listener_ok _ _ _ _ _); [|exact Hi1]. revert st1 Hi1. apply fold_inv_only.
   intros ir st2 Hir Hi2. apply sync_rule_inv; auto. apply in_rule_pairs. auto.
 Qed.
 
@@ -1074,7 +1081,7 @@ Proof.
   destruct (get_gateway cl (parent_ns r p) (p_name p)) as [g|]; [|cbn [fold_left]; auto].
   apply (fold_level_g st_tcp add_tcp_kv (backs_inv cl)); [|exact Hi0].
   intros l st1 _ Hi1. unfold sync_listener, tcp_links_listener, listener_admits_b.
-  destruct (section_ok (p_section p) l && listener_allowed cl g r l); [|cbn [fold_left]; auto].
+  destruct (listener_ok cl r g (p_section p) l); [|cbn [fold_left]; auto].
   apply (fold_level_g st_tcp add_tcp_kv (backs_inv cl)); [|exact Hi1].
   intros ir st2 Hir Hi2. apply sync_rule_tcp; auto.
   apply in_rule_pairs. auto.
@@ -1101,7 +1108,7 @@ Proof.
     rewrite IH. apply Hrule. }
   assert (Hlis : forall g sec ls st, st_tcp (fold_left (sync_listener cl r g sec) ls st) = st_tcp st).
   { intros g sec ls. induction ls as [|l t IH]; cbn [fold_left]; intros st0; [reflexivity|].
-    rewrite IH. unfold sync_listener. destruct (_ && _); [apply Hrules|reflexivity]. }
+    rewrite IH. unfold sync_listener. destruct (listener_ok _ _ _ _ _); [apply Hrules|reflexivity]. }
   induction (rt_parents r) as [|p t IH] in st |- *; cbn [fold_left]; [reflexivity|].
   rewrite IH. unfold sync_parent. destruct (parent_is_gateway p); [|reflexivity].
   destruct (get_gateway _ _ _); [apply Hlis|reflexivity].
@@ -1263,10 +1270,206 @@ Proof.
   exists v. apply (first_wins_g_spec Z.eqb Z.eqb_eq). exists l1, l2. auto.
 Qed.
 
+(* ================================================================== the extended driver without passthrough *)
+
+(* nothing of the passthrough machinery is active *)
+Definition quiet (x : xstate) : Prop := x_modetcp x = [] /\ x_pass x = [] /\ x_hpb x = [].
+
+Lemma fold_sim {A} (P : xstate -> Prop) (fx : xstate -> A -> xstate) (f : gstate -> A -> gstate) (l : list A) :
+  (forall a x, In a l -> P x -> x_core (fx x a) = f (x_core x) a /\ P (fx x a)) ->
+  forall x, P x -> x_core (fold_left fx l x) = fold_left f l (x_core x) /\ P (fold_left fx l x).
+Proof.
+  induction l as [|a t IH]; cbn [fold_left]; intros H x Hx; [auto|].
+  destruct (H a x (or_introl eq_refl) Hx) as [H1 H2].
+  destruct (IH (fun b y Hb => H b y (or_intror Hb)) _ H2) as [H3 H4].
+  rewrite H3, H1. auto.
+Qed.
+
+Lemma add_path_x_quiet bid pairs : forall x hosts,
+  x_modetcp x = [] -> x_pass x = [] -> x_hpb x = [] ->
+  let r := fold_left (add_path_x bid false) pairs (x, hosts) in
+  x_core (fst r) = fold_left (add_path bid) (map (fun mh : hmatch * string => link_hash (snd mh) (fst mh)) pairs) (x_core x) /\
+  x_modetcp (fst r) = [] /\ x_pass (fst r) = [] /\ x_hpb (fst r) = [].
+Proof.
+  induction pairs as [|[m h] t IH]; cbn [fold_left map]; intros x hosts Hm Hp Hh; [auto|].
+  cbn [fst snd].
+  set (x1 := with_core x (with_paths (x_core x) (st_paths (x_core x) ++ [(link_hash h m, bid)]))).
+  assert (Hstep : add_path_x bid false (x, hosts) (m, h) =
+                  if has_key (link_hash h m) (st_paths (x_core x)) then (x, hosts)
+                  else (x1, hosts ++ [host_name h])).
+  { unfold add_path_x. rewrite Hp. cbn [str_mem existsb andb negb orb].
+    destruct (has_key (link_hash h m) (st_paths (x_core x))); cbn [andb]; [reflexivity|].
+    fold x1. f_equal. unfold handle_passthrough. subst x1. cbn [with_core x_pass]. rewrite Hp.
+    cbn [str_mem existsb negb andb]. rewrite orb_true_r. reflexivity. }
+  rewrite Hstep. unfold add_path at 2.
+  destruct (has_key (link_hash h m) (st_paths (x_core x))) eqn:Ek.
+  - apply IH; assumption.
+  - specialize (IH x1 (hosts ++ [host_name h])).
+    subst x1. cbn [with_core with_paths x_core x_modetcp x_pass x_hpb] in *.
+    destruct (x_core x) as [ps bs ts]. cbn [st_paths st_backs st_tcp] in *. apply IH; assumption.
+Qed.
+
+Lemma rule_links_pairs l r ms :
+  map (fun mh : hmatch * string => link_hash (snd mh) (fst mh))
+      (flat_map (fun m => map (fun h => (m, h)) (filter_hostnames l r)) ms) =
+  flat_map (fun m => map (fun h => link_hash h m) (filter_hostnames l r)) ms.
+Proof.
+  rewrite map_flat_map. apply flat_map_ext_in. intros m _. rewrite map_map. reflexivity.
+Qed.
+
+Lemma sync_rule_x_http cl r l x ir :
+  rt_tcp r = false -> is_passthrough l = false -> quiet x ->
+  x_core (sync_rule_x cl r l x ir) = sync_rule cl r l (x_core x) ir /\ quiet (sync_rule_x cl r l x ir).
+Proof.
+  intros Ht Hpt (Hm & Hp & Hh). unfold sync_rule_x, sync_rule. destruct ir as [i rule]. rewrite Ht.
+  destruct (create_backend cl r ("_rule" ++ nat_str i)%string (r_backends rule) (x_core x)) as [c1 [bid|]].
+  - rewrite Hpt, Hm. cbv zeta. cbn [x_modetcp str_mem existsb].
+    set (x1 := {| x_core := c1; x_modetcp := []; x_pass := x_pass x; x_hpb := x_hpb x |}).
+    pose proof (add_path_x_quiet bid
+      (flat_map (fun m => map (fun h => (m, h)) (filter_hostnames l r)) (matches_or_default (r_matches rule)))
+      x1 [] eq_refl Hp Hh) as H. cbv zeta in H.
+    destruct (fold_left (add_path_x bid false) _ (x1, [])) as [x2 hosts]. cbn [fst] in H.
+    destruct H as (H1 & H2 & H3 & H4). rewrite rule_links_pairs in H1.
+    split; [exact H1|]. unfold quiet. auto.
+  - cbn [with_core x_core]. split; [reflexivity|]. unfold quiet. cbn [x_modetcp x_pass x_hpb]. auto.
+Qed.
+
+(* TCP routes only touch the backends, the tcp services and the tcp-mode marks *)
+Definition calm (x : xstate) : Prop := x_pass x = [] /\ x_hpb x = [].
+
+Lemma sync_rule_x_tcp cl r l x ir :
+  rt_tcp r = true -> calm x ->
+  x_core (sync_rule_x cl r l x ir) = sync_rule cl r l (x_core x) ir /\ calm (sync_rule_x cl r l x ir).
+Proof.
+  intros Ht (Hp & Hh). unfold sync_rule_x, sync_rule. destruct ir as [i rule]. rewrite Ht.
+  destruct (create_backend cl r ("_tcprule" ++ nat_str i)%string (r_backends rule) (x_core x)) as [c1 [bid|]];
+    cbn [with_core x_core]; (split; [reflexivity|]); unfold calm; cbn [x_pass x_hpb]; auto.
+Qed.
+
+Lemma get_gateway_in cl ns name g : get_gateway cl ns name = Some g -> In g (c_gateways cl).
+Proof.
+  unfold get_gateway. destruct (find _ (c_gateways cl)) as [g0|] eqn:E; [|discriminate].
+  destruct (class_ours cl g0); [|discriminate]. intros H. injection H as <-.
+  apply find_some in E. apply E.
+Qed.
+
+Lemma sync_route_x_sim cl r (P : xstate -> Prop) :
+  (forall g l x ir, In g (c_gateways cl) -> In l (g_listeners g) -> P x ->
+     x_core (sync_rule_x cl r l x ir) = sync_rule cl r l (x_core x) ir /\ P (sync_rule_x cl r l x ir)) ->
+  forall x, P x -> x_core (sync_route_x cl x r) = sync_route cl (x_core x) r /\ P (sync_route_x cl x r).
+Proof.
+  intros Hrule. unfold sync_route_x, sync_route. apply fold_sim.
+  intros p x0 _ H0. unfold sync_parent_x, sync_parent.
+  destruct (parent_is_gateway p); [|auto].
+  destruct (get_gateway cl (parent_ns r p) (p_name p)) as [g|] eqn:Eg; [|auto].
+  apply get_gateway_in in Eg. revert x0 H0. apply fold_sim.
+  intros l x1 Hl H1. unfold sync_listener_x, sync_listener.
+  destruct (listener_ok cl r g (p_section p) l); [|auto].
+  revert x1 H1. apply fold_sim. intros ir x2 _ H2. apply (Hrule g l); assumption.
+Qed.
+
+Lemma quiet_calm x : quiet x -> calm x.
+Proof. intros (_ & H1 & H2). split; assumption. Qed.
+
+(* without a passthrough listener the extended driver is the plain one *)
+Lemma attach_x_conservative cl :
+  no_passthrough cl ->
+  x_core (attach_impl_x cl) = attach_impl cl /\ x_pass (attach_impl_x cl) = [] /\ x_hpb (attach_impl_x cl) = [].
+Proof.
+  intros Hnp. unfold attach_impl_x, sync_cluster_x, attach_impl.
+  set (http := sort_routes (filter (fun r => negb (rt_tcp r)) (c_routes cl))).
+  set (tcp := sort_routes (filter rt_tcp (c_routes cl))).
+  destruct (fold_sim quiet (sync_route_x cl) (sync_route cl) http) with (x := empty_xstate) as [H1 H2].
+  - intros r x Hr Hx. apply (proj1 (in_sort_routes _ _)) in Hr. apply filter_In in Hr as [_ Ht].
+    apply negb_true_iff in Ht. revert x Hx. apply sync_route_x_sim.
+    intros g l x0 ir Hg Hl H0. apply sync_rule_x_http; [exact Ht|exact (Hnp g l Hg Hl)|exact H0].
+  - unfold quiet, empty_xstate. cbn. auto.
+  - destruct (fold_sim calm (sync_route_x cl) (sync_route cl) tcp) with (x := fold_left (sync_route_x cl) http empty_xstate) as [H3 H4].
+    + intros r x Hr Hx. apply (proj1 (in_sort_routes _ _)) in Hr. apply filter_In in Hr as [_ Ht].
+      revert x Hx. apply sync_route_x_sim. intros g l x0 ir _ _ H0. apply sync_rule_x_tcp; auto.
+    + apply quiet_calm. exact H2.
+    + rewrite H3, H1. cbn [empty_xstate x_core]. split; [reflexivity|]. exact H4.
+Qed.
+
+Lemma attach_versions_single cl : attach_versions [cl] = attach_impl_x cl.
+Proof. reflexivity. Qed.
+
+(* the main theorems, for the extended driver *)
+Lemma attach_x_sound cl k b :
+  wf_objects cl -> no_passthrough cl -> In (k, b) (st_paths (x_core (attach_impl_x cl))) ->
+  exists a before after,
+    combinations cl = before ++ a :: after /\
+    admitted cl a /\ at_key a = k /\ at_owner a = b /\
+    (forall a', In a' before -> admitted cl a' -> at_key a' <> k).
+Proof.
+  intros Hwf Hnp Hin. destruct (attach_x_conservative cl Hnp) as [E _]. rewrite E in Hin.
+  exact (attach_sound cl k b Hwf Hin).
+Qed.
+
+Lemma attach_x_complete cl a :
+  wf_objects cl -> no_passthrough cl -> In a (combinations cl) -> admitted cl a ->
+  exists b, In (at_key a, b) (st_paths (x_core (attach_impl_x cl))).
+Proof.
+  intros Hwf Hnp Hin Ha. destruct (attach_x_conservative cl Hnp) as [E _]. rewrite E.
+  exact (attach_complete cl a Hwf Hin Ha).
+Qed.
+
+(* ================================================================== against the Gateway API text alone *)
+
+Lemma hostnames_spec_under_H l r :
+  (l_hostname l = None \/ l_hostname l = Some "" \/ l_hostname l = Some "*" \/ rt_hostnames r = []) ->
+  filter_hostnames l r = spec_hostnames l r.
+Proof.
+  unfold filter_hostnames, spec_hostnames. intros [H|[H|[H|H]]]; rewrite H; try reflexivity.
+  all: try (destruct (l_hostname l) as [h|]; [|reflexivity];
+            destruct (String.eqb h "" || String.eqb h "*"); reflexivity).
+Qed.
+
+Definition hl_example (h : string) : listener :=
+  {| l_name := "l0"; l_hostname := Some h; l_port := 80; l_protocol := "HTTP"; l_tls := None; l_allowed := None |}.
+Definition hr_example (hs : list string) : route :=
+  {| rt_tcp := false; rt_kind := "HTTPRoute"; rt_ns := "a"; rt_name := "r"; rt_ts := 0; rt_parents := [];
+     rt_hostnames := hs; rt_rules := [] |}.
+
+(* the override is not the intersection: no common name, or a wildcard listener *)
+Lemma hostnames_spec_refuted :
+  exists l r, spec_hostnames l r = [] /\ filter_hostnames l r = ["gw.example"].
+Proof. exists (hl_example "gw.example"), (hr_example ["b.example"]). vm_compute. auto. Qed.
+
+Example spec_hostnames_table :
+  spec_hostnames (hl_example "*.example") (hr_example ["a.example"; "b.test"; "*.x.example"; "example"]) = ["a.example"; "*.x.example"] /\
+  filter_hostnames (hl_example "*.example") (hr_example ["a.example"; "b.test"; "*.x.example"; "example"]) = ["*.example"] /\
+  spec_hostnames (hl_example "a.example") (hr_example ["*.example"; "*.test"]) = ["a.example"] /\
+  spec_hostnames (hl_example "*.x.example") (hr_example ["*.example"]) = ["*.x.example"] /\
+  spec_hostnames (hl_example "a.example") (hr_example []) = ["a.example"] /\
+  spec_hostnames (hl_example "*") (hr_example []) = ["*"].
+Proof. vm_compute. auto 10. Qed.
+
+(* inside the documented conformance, the converter follows the Gateway API text *)
+Lemma attach_sound_spec_under_H cl k b :
+  wf_objects cl -> within_documented_conformance cl -> In (k, b) (st_paths (attach_impl cl)) ->
+  exists a before after,
+    combinations cl = before ++ a :: after /\
+    admitted_by_spec cl a /\ at_key a = k /\ at_owner a = b /\
+    (forall a', In a' before -> admitted_by_spec cl a' -> at_key a' <> k).
+Proof.
+  intros Hwf Hdoc Hin. destruct (attach_sound cl k b Hwf Hin) as (a & bf & af & Ec & Ha & Hk & Hb & Hfirst).
+  assert (Hra : In a (combinations cl)) by (rewrite Ec; apply in_or_app; right; left; reflexivity).
+  destruct (Hdoc a Hra Ha) as [Hp Hh].
+  exists a, bf, af. split; [exact Ec|]. split.
+  - split; [exact Ha|]. split; [exact Hp|]. rewrite <- Hh. apply (combinations_exhaustive cl a). exact Hra.
+  - split; [exact Hk|]. split; [exact Hb|]. intros a' Hin' [Ha' _]. exact (Hfirst a' Hin' Ha').
+Qed.
+
+Lemma attach_complete_spec_under_H cl a :
+  wf_objects cl -> In a (combinations cl) -> admitted_by_spec cl a ->
+  exists b, In (at_key a, b) (st_paths (attach_impl cl)).
+Proof. intros Hwf Hin [Ha _]. exact (attach_complete cl a Hwf Hin Ha). Qed.
+
 (* ================================================================== examples *)
 
 Definition ex_listener (name : string) (kinds : list (ostr * string)) (from : string) : listener :=
-  {| l_name := name; l_hostname := None; l_port := 80;
+  {| l_name := name; l_hostname := None; l_port := 80; l_protocol := "HTTP"; l_tls := None;
      l_allowed := Some {| al_kinds := kinds;
                           al_namespaces := Some {| rn_from := Some from; rn_selector := None |} |} |}.
 Definition ex_route (kind ns name : string) (gwns : ostr) (host : string) : route :=
@@ -1310,4 +1513,162 @@ Example empty_kind_example :
   listener_allowed (ex_cluster "" "haproxy")
     {| g_ns := "a"; g_name := "gw0"; g_class := "haproxy"; g_listeners := [] |}
     (ex_route "" "a" "r0" None "a.example") (ex_listener "l0" [(None, "HTTPRoute")] "Same") = false.
+Proof. vm_compute. auto. Qed.
+
+(* outside it, it does not: an HTTPRoute is attached through a listener whose protocol is TCP *)
+Definition ex_cluster_tcp_listener : cluster :=
+  {| c_controller := "haproxy-ingress.github.io/controller";
+     c_classes := [{| gc_name := "haproxy"; gc_controller := "haproxy-ingress.github.io/controller" |}];
+     c_gateways := [{| g_ns := "a"; g_name := "gw0"; g_class := "haproxy";
+                       g_listeners := [{| l_name := "l0"; l_hostname := None; l_port := 6379; l_protocol := "TCP"; l_tls := None;
+                                          l_allowed := Some {| al_kinds := []; al_namespaces := Some {| rn_from := Some "Same"; rn_selector := None |} |} |}] |}];
+     c_routes := [ex_route "HTTPRoute" "a" "r0" None "a.example"];
+     c_services := [ex_service "a"];
+     c_namespaces := [("a", [])] |}.
+
+Lemma attach_sound_spec_refuted :
+  exists cl k b,
+    wf_objects cl /\ no_passthrough cl /\ In (k, b) (st_paths (attach_impl cl)) /\
+    forall a, In a (combinations cl) -> ~ admitted_by_spec cl a.
+Proof.
+  exists ex_cluster_tcp_listener, (String.concat nl ["a.example"; "/"; "prefix"]), "a_r0__rule0".
+  split; [|split; [|split]].
+  - unfold wf_objects. cbn. repeat split; try (repeat constructor; cbn; intuition discriminate).
+    intros r [<-|[]]; reflexivity.
+  - intros g l [<-|[]] [<-|[]]. reflexivity.
+  - vm_compute. left. reflexivity.
+  - intros a Hin (_ & Hp & _). apply combinations_exhaustive in Hin as (Hr & Ht & _ & Hg & Hl & _).
+    unfold spec_protocol_admits in Hp. rewrite Ht in Hp.
+    destruct Hg as [Eg|[]]. rewrite <- Eg in Hl. cbn [g_listeners] in Hl.
+    destruct Hl as [El|[]]. rewrite <- El in Hp. cbn [l_protocol] in Hp. destruct Hp; discriminate.
+Qed.
+
+(* ================================================================== with passthrough and several versions *)
+
+(* every host/path rule points to a backend that exists *)
+Definition backed (c : gstate) : Prop :=
+  forall k b, In (k, b) (st_paths c) -> has_key b (st_backs c) = true.
+
+Lemma create_backend_backed cl r idx refs c :
+  backed c ->
+  backed (fst (create_backend cl r idx refs c)) /\
+  (forall bid, snd (create_backend cl r idx refs c) = Some bid ->
+     has_key bid (st_backs (fst (create_backend cl r idx refs c))) = true).
+Proof.
+  intros Hb. unfold create_backend.
+  destruct (has_key (backend_id (rt_ns r) (rt_name r) idx) (st_backs c)) eqn:Ek; cbn [fst snd].
+  - split; [exact Hb|]. intros bid E. injection E as <-. exact Ek.
+  - destruct (backend_servers cl (rt_ns r) refs) as [eps|]; cbn [fst snd].
+    + split.
+      * intros k b Hin. cbn [st_paths st_backs] in *. rewrite has_key_app. rewrite (Hb k b Hin). reflexivity.
+      * intros bid E. injection E as <-. cbn [st_backs]. rewrite has_key_app. unfold has_key at 2. cbn [existsb fst].
+        rewrite String.eqb_refl. apply orb_true_r.
+    + split; [exact Hb|discriminate].
+Qed.
+
+Lemma handle_passthrough_backed path h bid b x :
+  backed (x_core x) -> backed (x_core (handle_passthrough path h bid b x)) /\
+  st_backs (x_core (handle_passthrough path h bid b x)) = st_backs (x_core x).
+Proof.
+  intros Hb. unfold handle_passthrough. destruct (_ || _); [auto|].
+  destruct (filter _ (st_paths (x_core x))) as [|first t]; [auto|].
+  cbn [x_core with_paths st_paths st_backs]. split; [|reflexivity].
+  intros k b0 Hin. apply filter_In in Hin as [Hin _]. exact (Hb k b0 Hin).
+Qed.
+
+Lemma add_path_x_backed bid b pairs : forall x hosts,
+  backed (x_core x) -> has_key bid (st_backs (x_core x)) = true ->
+  backed (x_core (fst (fold_left (add_path_x bid b) pairs (x, hosts)))).
+Proof.
+  induction pairs as [|[m h] t IH]; cbn [fold_left fst]; intros x hosts Hb Hk; [exact Hb|].
+  unfold add_path_x at 2. destruct (_ && _).
+  - apply IH; assumption.
+  - set (x1 := with_core x (with_paths (x_core x) (st_paths (x_core x) ++ [(link_hash h m, bid)]))).
+    assert (Hb1 : backed (x_core x1)).
+    { subst x1. cbn [with_core x_core with_paths]. intros k b0 Hin. cbn [st_paths st_backs] in *.
+      apply in_app_or in Hin as [Hin|[E|[]]]; [exact (Hb k b0 Hin)|]. injection E as <- <-. exact Hk. }
+    destruct (handle_passthrough_backed (match_path m) (host_name h) bid b x1 Hb1) as [H1 H2].
+    apply IH; [exact H1|]. rewrite H2. subst x1. cbn [with_core x_core with_paths st_backs]. exact Hk.
+Qed.
+
+Lemma sync_rule_x_backed cl r l x ir : backed (x_core x) -> backed (x_core (sync_rule_x cl r l x ir)).
+Proof.
+  intros Hb. unfold sync_rule_x. destruct ir as [i rule]. destruct (rt_tcp r).
+  - pose proof (create_backend_backed cl r ("_tcprule" ++ nat_str i)%string (r_backends rule) (x_core x) Hb) as [H1 _].
+    destruct (create_backend cl r _ _ (x_core x)) as [c1 [bid|]]; cbn [fst] in H1; cbn [x_core with_core]; [|exact H1].
+    unfold add_tcp. destruct (existsb _ _); [exact H1|]. exact H1.
+  - pose proof (create_backend_backed cl r ("_rule" ++ nat_str i)%string (r_backends rule) (x_core x) Hb) as [H1 H2].
+    destruct (create_backend cl r _ _ (x_core x)) as [c1 [bid|]]; cbn [fst snd] in H1, H2; cbn [x_core with_core]; [|exact H1].
+    specialize (H2 bid eq_refl). cbv zeta.
+    match goal with |- context [fold_left (add_path_x bid ?b) ?ps (?x1, [])] =>
+      pose proof (add_path_x_backed bid b ps x1 [] H1 H2) as H3;
+      destruct (fold_left (add_path_x bid b) ps (x1, [])) as [x2 hosts] end.
+    cbn [fst] in H3. destruct (is_passthrough l); exact H3.
+Qed.
+
+Lemma fold_backed {A} (fx : xstate -> A -> xstate) (l : list A) :
+  (forall a x, backed (x_core x) -> backed (x_core (fx x a))) ->
+  forall x, backed (x_core x) -> backed (x_core (fold_left fx l x)).
+Proof.
+  intros H. induction l as [|a t IH]; cbn [fold_left]; intros x Hx; [exact Hx|]. apply IH. apply H. exact Hx.
+Qed.
+
+Lemma sync_cluster_x_backed cl x : backed (x_core x) -> backed (x_core (sync_cluster_x cl x)).
+Proof.
+  assert (Hroute : forall r x, backed (x_core x) -> backed (x_core (sync_route_x cl x r))).
+  { intros r. unfold sync_route_x. apply fold_backed. intros p x0 H0. unfold sync_parent_x.
+    destruct (parent_is_gateway p); [|exact H0]. destruct (get_gateway _ _ _) as [g|]; [|exact H0].
+    revert x0 H0. apply fold_backed. intros l x1 H1. unfold sync_listener_x.
+    destruct (listener_ok _ _ _ _ _); [|exact H1]. revert x1 H1. apply fold_backed.
+    intros ir x2 H2. apply sync_rule_x_backed. exact H2. }
+  intros Hx. unfold sync_cluster_x. apply fold_backed; [exact Hroute|]. apply fold_backed; [exact Hroute|exact Hx].
+Qed.
+
+(* PARTIAL.  For any object sets, any listener TLS mode and any succession of API versions:
+   every host/path rule of the configuration is served by a backend that exists.
+   Gap: that the rule was admitted, and that every admitted combination is served, is proved
+   only without passthrough listeners and for one API version (attach_x_sound / _complete);
+   with passthrough the root path moves and matches are dropped, which the relation `admitted`
+   does not describe. *)
+Lemma attach_versions_backed_partial cls k b :
+  In (k, b) (st_paths (x_core (attach_versions cls))) ->
+  has_key b (st_backs (x_core (attach_versions cls))) = true.
+Proof.
+  assert (H : backed (x_core (attach_versions cls))).
+  { unfold attach_versions. apply fold_backed.
+    - intros cl x Hx. apply sync_cluster_x_backed. exact Hx.
+    - intros k0 b0 []. }
+  apply H.
+Qed.
+
+(* the hypothesis of the _under_H theorem is satisfiable *)
+Example documented_conformance_example : within_documented_conformance (ex_cluster "HTTPRoute" "haproxy").
+Proof.
+  intros a Hin _. apply combinations_exhaustive in Hin as (Hr & Ht & _ & Hg & Hl & _).
+  destruct Hg as [Eg|[]]. rewrite <- Eg in Hl. cbn [g_listeners ex_cluster] in Hl.
+  unfold spec_protocol_admits. rewrite Ht.
+  destruct Hl as [El|[El|[]]]; rewrite <- El; cbn [l_protocol ex_listener]; (split; [left; reflexivity|]);
+    apply hostnames_spec_under_H; left; reflexivity.
+Qed.
+
+(* the unrepaired defect C10/passthrough-mode-leaks-to-plain-listener, as the model shows it:
+   one HTTPRoute attached through a plain listener (hostname h.example) and a passthrough listener
+   (hostname p.example); its single backend turns to tcp mode although h.example is a plain host *)
+Definition ex_cluster_leak : cluster :=
+  {| c_controller := "haproxy-ingress.github.io/controller";
+     c_classes := [{| gc_name := "haproxy"; gc_controller := "haproxy-ingress.github.io/controller" |}];
+     c_gateways := [{| g_ns := "a"; g_name := "gw0"; g_class := "haproxy";
+       g_listeners := [
+         {| l_name := "l0"; l_hostname := Some "h.example"; l_port := 80; l_protocol := "HTTP"; l_tls := None;
+            l_allowed := Some {| al_kinds := []; al_namespaces := Some {| rn_from := Some "Same"; rn_selector := None |} |} |};
+         {| l_name := "l1"; l_hostname := Some "p.example"; l_port := 443; l_protocol := "TLS"; l_tls := Some (Some "Passthrough");
+            l_allowed := Some {| al_kinds := []; al_namespaces := Some {| rn_from := Some "Same"; rn_selector := None |} |} |}] |}];
+     c_routes := [ex_route "HTTPRoute" "a" "r0" None "ignored.example"];
+     c_services := [ex_service "a"];
+     c_namespaces := [("a", [])] |}.
+
+Example passthrough_leak_example :
+  let x := attach_impl_x ex_cluster_leak in
+  map snd (st_paths (x_core x)) = ["a_r0__rule0"; "a_r0__rule0"] /\
+  x_modetcp x = ["a_r0__rule0"] /\ x_pass x = ["p.example"].
 Proof. vm_compute. auto. Qed.
